@@ -153,3 +153,23 @@ example :
   decide
 
 end Firebolt.C11
+
+namespace Firebolt.C11
+open Firebolt Firebolt.Route
+
+/-- **bridge**: for every tree, subscription assignment, message type and failing subset, what the model of the delivery
+walk makes observable satisfies the Spec predicate that also judges `Executor.deliverMessage` -/
+theorem spec_holds (t : String) (srcSubs : List String) (srcFail : Bool) (roots : List RNode) :
+    spec t srcSubs srcFail roots (deliver t srcSubs srcFail roots).recipients (deliver t srcSubs srcFail roots).errors = none := by
+  obtain ⟨h1, h2⟩ := deliver_exact t srcSubs srcFail roots
+  have hn := deliver_nodup t srcSubs srcFail roots
+  unfold spec
+  have e1 : (fun x : Int × List String × Bool => x.2.1.contains t) = subscribed t := rfl
+  have e2 : (fun x : Int × List String × Bool => x.2.1.contains t && x.2.2) = failing t := rfl
+  simp only [e1, e2, ← h1, ← h2]
+  have a1 : (deliver t srcSubs srcFail roots).recipients.Nodup := hn
+  have a2 : (deliver t srcSubs srcFail roots).recipients.any (fun r => !(deliver t srcSubs srcFail roots).recipients.contains r) = false := by
+    rw [List.any_eq_false]; intro x hx; simp [hx]
+  simp [a1, a2]
+
+end Firebolt.C11
